@@ -454,6 +454,9 @@ func genOuter(t *rapid.T, b *builder, c *Case, leaves []compInfo, elem, shape st
 	k3 := compInfo{idx: 3, file: file3, elem: elem, slots: map[string]slotInfo{}, multi: map[string]bool{}}
 	fm := rapid.Bool().Draw(t, "fm3")
 	propSets := [][]string{nil, {"item"}, {"item", "n"}}
+	if elem == "m" {
+		propSets = append(propSets, []string{"item", "badge"}, []string{"item", "n", "badge"})
+	}
 	// direct uses
 	var uses []useSpec
 	direct := rapid.SampledFrom([][]string{nil, {"a"}, {""}, {"", "a"}}).Draw(t, "outer-direct")
